@@ -5,7 +5,9 @@ Part 1 (scheduler): scripted cooperative tasks (sleep d / bare Pending, optional
 interpreted by generic `async fn`s in the Rust harness on a real `sc62015_core::AsyncDriver`; `run_for` is called
 with a list of budgets, then with a huge budget until everything finished.  A small space is enumerated
 completely; Hypothesis explores beyond it (up to 4 tasks, 6 steps, late spawns, huge values, zero budgets,
-non-zero start clock).  Verdicts: vp_harness/c18_sched.py.
+non-zero start clock); "long" cases have chains of thousands of steps; "multi" cases keep 2-3 drivers alive on
+one thread and interleave their run_for calls (plus block_on interludes), each driver must behave as it does
+alone.  Verdicts: vp_harness/c18_sched.py.
 
 Part 2 (CPU): generated machine images (templates + random valid encodings, timers, interrupt handler) are run
 on two identical `CoreRuntime`s, one through `AsyncRuntimeRunner::run_instructions` with a slice size, one
@@ -34,11 +36,17 @@ RULE = ("scheduler: task sets x budget partitions; complete enumeration of {1-2 
         "length 0..2 (0..3 for the single-task family) from the budget palette, each followed by run_for(2^63) until "
         "all tasks finished (quick palettes d in {0,1,2,3}, b in {1,2,3,100}; thorough d in {0,1,2,3,5,8}, b in "
         "{1,2,3,5,13,100}); plus Hypothesis-generated cases (1-4 tasks, 0-6 steps, bare-Pending steps, emit on first "
-        "poll, late spawns, budgets incl. 0 and 2^40+, start clock up to 2^62).  CPU: generated images x slice sizes "
+        "poll, late spawns, budgets incl. 0 and 2^40+, start clock up to 2^62); long scripts (compact [d,ev,rep] ops, "
+        "chains of 7..5000 (thorough ..100000) equal steps around powers of two/ten, systematic family + random mixes); "
+        "multi cases: 2-3 such drivers alive on one thread, run_for calls interleaved in a generated order with "
+        "block_on interludes, drivers created up front or lazily, each compared with itself run alone.  "
+        "CPU: generated images (templates, random encodings, optional parking construct: self-jump / conditional "
+        "self-jump / endless short loop) x slice sizes "
         "{1,2,3,7,10000,default,...} x instruction-count lists x warm-up.  Non-trivial (scheduler) = >= 2 tasks "
         "resumed at one cycle, or one task's resumptions spread over >= 2 run_for calls, or an event emitted at the "
         "last cycle of a budget window; non-trivial (CPU) = >= 2 instructions executed and a register other than PC, "
-        "internal or external memory changed.  distinct = hash of the full case.")
+        "internal or external memory changed; non-trivial (multi) = >= 2 drivers resumed tasks and some driver was "
+        "stepped again after another one ran.  distinct = hash of the full case.")
 
 TAIL_BUDGET = 2 ** 63
 Q_D, Q_B = (0, 1, 2, 3), (1, 2, 3, 100)
@@ -51,7 +59,13 @@ ASSUMPTIONS = [
     "in [c, c+b) unless an event ends the run; budget is not consumed while idle (clock only moves to served "
     "wake-up cycles), so a task sleeping >= b is never reached by repeating run_for(b) -- not a violation",
     "at most one emit_event per resumption (the statement's precondition); event ids unique per case",
-    "cycle values stay below 2^64 (no saturating arithmetic exercised); block_on() is not a subject",
+    "cycle values stay below 2^64 (no saturating arithmetic exercised); block_on() is not a subject (it is only "
+    "used as a second user of the thread between run_for calls; nothing is asserted about its own timing)",
+    "a driver's behaviour is a function of its own tasks, clock and run_for calls only: other AsyncDrivers or "
+    "block_on running on the same thread between its calls are not inputs of any of its tasks, so every verdict "
+    "must hold for each driver of an interleaved group and its observation must equal the stand-alone run",
+    "the statement puts no bound on the length of a sleep sequence or on the number of wake-ups served within "
+    "one cycle: sleep_cycles(0) must stay in its cycle however long the chain is",
     "a bare Poll::Pending (no sleep registered) is expected one cycle later, as the maintainers' "
     "pending_without_sleep_advances_by_one test states",
     "CPU: LCD controller and keyboard-matrix internals are compared only through memory/IMEM/FIFO length; perfetto "
@@ -236,12 +250,9 @@ def _enum_shard(task: Tuple[int, int, str]) -> Report:
 # scheduler: Hypothesis beyond the enumerated space
 # ------------------------------------------------------------------------------------------------
 
-def _hyp_shard(task: Tuple[int, int, int]) -> Report:
-    shard, seed, n_examples = task
-    import hypothesis
-    from hypothesis import HealthCheck, Phase, given, settings, strategies as st
+def _case_strategy(max_tasks: int = 4, max_steps: int = 6, max_budgets: int = 8) -> Any:
+    from hypothesis import strategies as st
 
-    rep = Report()
     big = st.sampled_from([2 ** 32, 2 ** 40 + 1, 2 ** 56, 2 ** 58])  # clock0 + all sleeps + tail budget < 2^64
     dur = st.one_of(st.sampled_from(T_D), st.sampled_from(T_D), st.integers(0, 20), big, st.just(SC.YIELD))
     step = st.tuples(dur, st.booleans())
@@ -250,24 +261,188 @@ def _hyp_shard(task: Tuple[int, int, int]) -> Report:
 
     @st.composite
     def cases(draw: Any) -> Dict[str, Any]:
-        nt = draw(st.integers(1, 4))
-        budgets = draw(st.lists(bud, min_size=0, max_size=8))
-        ops = [[list(s) for s in draw(st.lists(step, min_size=0, max_size=6))] for _ in range(nt)]
+        nt = draw(st.integers(1, max_tasks))
+        budgets = draw(st.lists(bud, min_size=0, max_size=max_budgets))
+        ops = [[list(s) for s in draw(st.lists(step, min_size=0, max_size=max_steps))] for _ in range(nt)]
         se = [draw(st.integers(0, 5)) == 0 for _ in range(nt)]
         at = [0] * nt
         if budgets and draw(st.integers(0, 3)) == 0:
             at = [draw(st.integers(0, len(budgets))) if draw(st.booleans()) else 0 for _ in range(nt)]
         return _mk_case(_assign_events(ops, se, at), budgets, draw(clock))
 
+    return cases()
+
+
+def _hyp_shard(task: Tuple[int, int, int]) -> Report:
+    shard, seed, n_examples = task
+    import hypothesis
+    from hypothesis import HealthCheck, Phase, given, settings
+
+    rep = Report()
+
     @hypothesis.seed(mix32(seed, shard, 0xC18))
     @settings(max_examples=n_examples, database=None, deadline=None, report_multiple_bugs=False,
               suppress_health_check=list(HealthCheck), phases=[Phase.generate])
-    @given(cases())
+    @given(_case_strategy())
     def explore(case: Dict[str, Any]) -> None:
         vs, labels, nt = eval_sched(case)
         _record(rep, case, vs, labels, nt, 1999, ("hyp",))
 
     explore()
+    return rep
+
+
+# ------------------------------------------------------------------------------------------------
+# scheduler: several schedulers alive on one thread, driven alternately
+# ------------------------------------------------------------------------------------------------
+# The driver and its tasks talk through thread-locals (CURRENT_CYCLE / NEXT_WAKE_CYCLE / PENDING_EVENT, see the
+# C18 anchors), so "a scheduler" is only well-behaved if it re-establishes that channel whenever it polls.  The
+# statement quantifies over task sets and budget partitions of *the* scheduler; what else happened on the thread
+# between two run_for calls is not an input of any task, so every driver must behave exactly as it does alone.
+
+def _multi_shard(task: Tuple[int, int, int]) -> Report:
+    shard, seed, n_examples = task
+    import hypothesis
+    from hypothesis import HealthCheck, Phase, given, settings, strategies as st
+
+    rep = Report()
+    sub = _case_strategy(max_tasks=3, max_steps=4, max_budgets=5)
+
+    @st.composite
+    def multis(draw: Any) -> Dict[str, Any]:
+        n = draw(st.sampled_from((2, 2, 2, 3)))
+        drivers = [draw(sub) for _ in range(n)]
+        entry = st.one_of(st.integers(0, n - 1), st.integers(0, n - 1), st.integers(0, n - 1),
+                          st.lists(st.sampled_from((0, 1, 2, 3, 9)), min_size=0, max_size=3))
+        order = draw(st.lists(entry, min_size=0, max_size=12))
+        return {"kind": "multi", "drivers": drivers, "order": order,
+                "create": draw(st.sampled_from(("upfront", "upfront", "lazy")))}
+
+    @hypothesis.seed(mix32(seed, shard, 0xC18A))
+    @settings(max_examples=n_examples, database=None, deadline=None, report_multiple_bugs=False,
+              suppress_health_check=list(HealthCheck), phases=[Phase.generate])
+    @given(multis())
+    def explore(case: Dict[str, Any]) -> None:
+        vs, labels, nt = eval_multi(case)
+        _record(rep, case, vs, labels, nt, 499, ("multi",))
+
+    explore()
+    return rep
+
+
+INTERLEAVED = " [another scheduler was driven on the same thread between the run_for calls]"
+
+
+def eval_multi(case: Dict[str, Any]) -> Tuple[List[Violation], List[str], bool]:
+    """Drive the drivers of a multi case side by side on one thread, and each of them alone; every driver must
+    show the same observation both ways and pass the ordinary verdicts."""
+    resp = _call({"cmd": "c18.multi", "cases": [case]})
+    if not resp.get("ok"):
+        raise HarnessError(f"c18.multi failed: {str(resp)[:300]}")
+    mo = resp["results"][0]
+    out: List[Violation] = []
+    labels = [f"drivers:{len(case['drivers'])}", "create:" + case.get("create", "upfront")]
+    if not mo.get("ok"):
+        out.append(Violation("crash", "AsyncDriver" + INTERLEAVED, "panic or error inside the driver", case,
+                             str(mo.get("panic") or mo.get("error"))[:300]))
+        return out, labels + ["crash"], False
+    solo = _rust_sched(case["drivers"])
+    for i, dcase in enumerate(case["drivers"]):
+        vs_solo, _, _ = SC.check(dcase, solo[i])
+        vs_int, _, _ = SC.check(dcase, mo["drivers"][i])
+        solo_keys = {v.key() for v in vs_solo}
+        out.extend(vs_solo)  # not specific to the interleaving: reported on the stand-alone case
+        fresh = [v for v in vs_int if v.key() not in solo_keys]
+        # one root cause usually trips several verdicts; the first one (check order: first-poll, wake-exact,
+        # time-monotonic, budget-window, ...) is the most fundamental
+        for v in fresh[:0 if any(INTERLEAVED in x.where for x in out) else 1]:
+            out.append(Violation(v.subcheck, v.where + INTERLEAVED, v.symptom, case, f"driver {i}: " + v.detail))
+        if not fresh and not vs_solo:
+            a, b = mo["drivers"][i], solo[i]
+            diff = [k for k in ("log", "results", "budgets", "spawn_clock", "done") if a.get(k) != b.get(k)]
+            if diff:
+                out.append(Violation("isolation", "AsyncDriver" + INTERLEAVED,
+                                     "a driver behaves differently from the same driver run alone: " + ",".join(diff),
+                                     case, f"driver {i}: interleaved {str({k: a.get(k) for k in diff})[:300]} alone "
+                                           f"{str({k: b.get(k) for k in diff})[:300]}"))
+    ex = mo.get("executed", [])
+    drv = [e for e in ex if isinstance(e, int)]
+    # alternation: some driver is stepped again after a different one ran in between (A .. B .. A)
+    alternates = any(drv[j] != drv[j + 1] and drv[j] in drv[j + 2:] for j in range(len(drv) - 1))
+    active = sum(1 for o in mo["drivers"] if o and o.get("log"))
+    if "block_on" in ex:
+        labels.append("block_on-interlude")
+    if len({int(d.get("clock0") or 0) for d in case["drivers"]}) > 1:
+        labels.append("clock0:drivers-differ")
+    if alternates:
+        labels.append("alternating")
+    return out, labels, bool(alternates and active >= 2)
+
+
+# ------------------------------------------------------------------------------------------------
+# scheduler: long scripts (thousands of steps, long same-cycle chains)
+# ------------------------------------------------------------------------------------------------
+# The enumerated space and the Hypothesis cases have at most 6 steps per task; nothing in the statement bounds the
+# length of a sleep sequence or the number of wake-ups served within one cycle, so chain length is a generated
+# dimension too (compact [d, ev, rep] notation), with lengths around powers of two and ten.
+
+Q_REP = (7, 100, 101, 255, 256, 257, 999, 1000, 1001, 1023, 1024, 1025, 2000, 4095, 4096, 4097, 5000)
+T_REP = Q_REP + (9999, 10000, 10001, 32767, 32768, 32769, 65535, 65536, 65537, 100000)
+
+
+def _long_cases(tier: str, seed: int, n_random: int) -> Iterator[Tuple[str, Dict[str, Any]]]:
+    reps = Q_REP if tier == "quick" else T_REP
+    cap = 12000 if tier == "quick" else 220000
+    # systematic: a chain of rep equal steps, then one ordinary sleep with an event; 1 or 2 tasks
+    for rep_n in reps:
+        for d in (0, 1, SC.YIELD):
+            for ntasks in (1, 2):
+                for budgets in ([], [2], [1, 3]):
+                    ops = [[[d, 0, rep_n], [1 + i, 1, 1]] for i in range(ntasks)]
+                    tasks = _assign_events_rep(ops)
+                    yield "long:systematic", _mk_case(tasks, list(budgets))
+    for k in range(n_random):
+        st = Stream(seed, k, 0x10C18)
+        ntasks = 1 + st.below(3)
+        ops = []
+        total = 0
+        for _ in range(ntasks):
+            t = []
+            for _ in range(1 + st.below(4)):
+                d = st.choice((0, 0, 0, 0, 1, 1, 2, 3, SC.YIELD))
+                r = st.choice(reps) if st.chance(1, 2) else 1 + st.below(3)
+                if total + r > cap:
+                    r = 1
+                total += r
+                t.append([d, 1 if st.chance(1, 3) else 0, r])
+            ops.append(t)
+        nb = st.below(4)
+        budgets = [st.choice((1, 2, 3, 5, 100, 1000, 5000)) for _ in range(nb)]
+        se = [st.chance(1, 6) for _ in range(ntasks)]
+        at = [st.below(nb + 1) if (nb and st.chance(1, 4)) else 0 for _ in range(ntasks)]
+        clock0 = st.choice((0, 0, None, 1, 7, 2 ** 32 + 5))
+        yield "long:random", _mk_case(_assign_events_rep(ops, se, at), budgets, clock0)
+
+
+def _assign_events_rep(task_ops: List[List[List[Any]]], se: Optional[List[bool]] = None,
+                       at: Optional[List[int]] = None) -> List[Dict[str, Any]]:
+    """like _assign_events for ops given as [d, emit?, rep]"""
+    tasks = _assign_events([[[d, e] for d, e, _ in ops] for ops in task_ops], se, at)
+    for t, ops in zip(tasks, task_ops):
+        for o, (_, _, r) in zip(t["ops"], ops):
+            if r != 1:
+                o.append(r)
+    return tasks
+
+
+def _long_shard(task: Tuple[int, int, str, int, int]) -> Report:
+    shard, nshards, tier, seed, n_random = task
+    rep = Report()
+    for n, (fam, case) in enumerate(_long_cases(tier, seed, n_random)):
+        if n % nshards != shard:
+            continue
+        vs, labels, nt = eval_sched(case)
+        _record(rep, case, vs, labels, nt, 97, (fam,))
     return rep
 
 
@@ -324,6 +499,10 @@ def _dispatch(task: Tuple[Any, ...]) -> Report:
             return _enum_shard(task[1:])
         if kind == "hyp":
             return _hyp_shard(task[1:])
+        if kind == "multi":
+            return _multi_shard(task[1:])
+        if kind == "long":
+            return _long_shard(task[1:])
         return _cpu_shard(task[1:])
     except _Hang as exc:
         # The shard's partial results are dropped; run() turns this into exit 2 unless another shard produced a
@@ -348,6 +527,10 @@ def run(ctx: Ctx) -> Report:
         tasks.append(("cpu", i, base, n_prog, n_var))
     for i in range(16):
         tasks.append(("hyp", i, base, n_hyp))
+    for i in range(16):
+        tasks.append(("long", i, 16, ctx.tier, base, ctx.pick(480, 1600)))
+    for i in range(16):
+        tasks.append(("multi", i, base, ctx.pick(600, 4000)))
     for i in range(n_enum):
         tasks.append(("enum", i, n_enum, ctx.tier))
     reports = ctx.pmap(_dispatch, tasks)
@@ -373,6 +556,9 @@ def replay(ctx: Ctx, case: Dict[str, Any]) -> List[Violation]:
     if case.get("kind") == "cpu":
         obs = _rust_cpu([case])
         vs, _, _ = PG.check_cpu(case, obs[0])
+        return vs
+    if case.get("kind") == "multi":
+        vs, _, _ = eval_multi(case)
         return vs
     vs, _, _ = eval_sched(case)
     return vs
@@ -410,7 +596,16 @@ def _sched_candidates(case: Dict[str, Any]) -> Iterator[Dict[str, Any]]:
         c["clock0"] = 0
         yield c
     for i, t in enumerate(tasks):
-        for j, (d, ev) in enumerate(t["ops"]):
+        for j, o in enumerate(t["ops"]):
+            r = o[2] if len(o) > 2 else 1
+            for nr in (1, r // 2, r - 1):
+                if 1 <= nr < r:
+                    c = copy.deepcopy(case)
+                    c["tasks"][i]["ops"][j][2] = nr
+                    yield c
+    for i, t in enumerate(tasks):
+        for j, o in enumerate(t["ops"]):
+            d, ev = o[0], o[1]
             for nd in (0, 1, 2, d // 2):
                 if 0 <= nd < d:
                     c = copy.deepcopy(case)
@@ -426,6 +621,34 @@ def _sched_candidates(case: Dict[str, Any]) -> Iterator[Dict[str, Any]]:
                 c = copy.deepcopy(case)
                 c["budgets"][i] = nb
                 yield c
+
+
+def _multi_candidates(case: Dict[str, Any]) -> Iterator[Dict[str, Any]]:
+    n = len(case["drivers"])
+    if n > 2:
+        for i in range(n):
+            c = copy.deepcopy(case)
+            del c["drivers"][i]
+            c["order"] = [(e - 1 if e > i else e) if isinstance(e, int) else e
+                          for e in c["order"] if not (isinstance(e, int) and e == i)]
+            yield c
+    if case["order"]:
+        c = copy.deepcopy(case)
+        c["order"] = []
+        yield c
+    for j in range(len(case["order"])):
+        c = copy.deepcopy(case)
+        del c["order"][j]
+        yield c
+    if case.get("create") != "upfront":
+        c = copy.deepcopy(case)
+        c["create"] = "upfront"
+        yield c
+    for i in range(n):
+        for sub in _sched_candidates(case["drivers"][i]):
+            c = copy.deepcopy(case)
+            c["drivers"][i] = sub
+            yield c
 
 
 def _cpu_candidates(case: Dict[str, Any]) -> Iterator[Dict[str, Any]]:
@@ -474,7 +697,7 @@ def shrink(ctx: Ctx, v: Violation) -> Violation:
     t_end = time.time() + 45
     best = v
     key = v.key()
-    cands = _cpu_candidates if best.case.get("kind") == "cpu" else _sched_candidates
+    cands = {"cpu": _cpu_candidates, "multi": _multi_candidates}.get(best.case.get("kind"), _sched_candidates)
     progress = True
     while progress and time.time() < t_end:
         progress = False
